@@ -28,8 +28,12 @@ def impl_call(case):
         def f():
             obj = O.eval_expr(case['expr'])
             w = obj.waveset
+            for _ in range(case.get('repeat', 0)):
+                w = obj.waveset          # asking again must give the same set
             return None if w is None else w.value
         out = guarded(f)
+        zroot = 1 + O.fl(case['expr']['setz']['z']) if 'setz' in case['expr'] else 1.0
+        replaced = 'setz' in case['expr'] and 'prim' in case['expr']['e']     # assignment replaces the operand's own z
         # component sampling sets for the containment oracle
         comps = []
         for p in O.walk_prims(case['expr']):
@@ -37,7 +41,8 @@ def impl_call(case):
                 # the statement's reference: the rest-frame set multiplied by (1+z)
                 rest = {k: v for k, v in p.items() if k not in ('z', 'ztype')}
                 w = O.build_prim(rest).waveset
-                return None if w is None else w.value * (1 + (O.fl(p['z']) if 'z' in p else 0.0))
+                own = 0.0 if replaced or 'z' not in p else O.fl(p['z'])
+                return None if w is None else w.value * (1 + own) * zroot
             comps.append((p['prim'], p['leaf']['leaf'], guarded(g)))
         out['_comps'] = comps
         return out
@@ -283,8 +288,15 @@ def gen_merge(rng, nmax):
 
 def gen_waveset_case(rng, depth):
     e = c02.gen_tree(rng, rng.randint(0, depth), 'source' if rng.random() < 0.7 else 'unitless')
+    if rng.random() < 0.3 and c02.static_kind(e) == 'source':
+        # the redshift assigned on the result (a composite, or an operand that already carries one)
+        e = {'setz': {'z': q(rng.choice([F(1), F(3), F(1, 2), F(-1, 2), F(1, 4), F(7)])),
+                      'ztype': rng.choice([None, 'wavelength_only', 'conserve_flux'])}, 'e': e}
     O.fill_ss(e, with_ss=True)
-    return {'op': 'expr_waveset', 'expr': e}
+    c = {'op': 'expr_waveset', 'expr': e}
+    if rng.random() < 0.5:
+        c['repeat'] = rng.randint(1, 3)
+    return c
 
 
 def gen_gen(rng):
